@@ -3,13 +3,17 @@
 
   PROPERTY THEOREMS ONLY.  UPGrad / DualProj: see `dualproj_nonconflict`, `upgrad_nonconflict` in
   TjdProps/C03.lean (primal feasibility of the projection gives the allowance `reg_eps·s²·w_i`).
-  Here: MGDA (allowance in terms of the sub-optimality, and the Frank–Wolfe rate 8 s²/(K+2)).
-  CAGrad's non-conflict rests on the optimality of the conic solver's answer (kernel): not proved; the
-  check evaluates the predicate on the implementation (see DESIGN §8).
+  Here: MGDA (allowance in terms of the sub-optimality, and the Frank–Wolfe rate 8 s²/(K+2)), and the existence of
+  the minimum-norm point of the hull together with the COMPLETENESS of the certified search that computes it
+  (`minNorm_total`, helper lemmas in TjdLemmas/MinNormTotal.lean): the oracle behind the allowance never fails.
+  CAGrad: non-conflict for `c ≥ 1` is proved from the first-order optimality of the conic solver's answer in
+  TjdProps/C03b.lean (`cagrad_nonconflict_of_optimality`); that the solver's answer satisfies that condition is a
+  kernel contract, measured by the check (see DESIGN §8, §10.3).
 -/
 import Mathlib.Algebra.Order.Field.Basic
 import TjdModel.Agg.Spec2
 import TjdLemmas.FWLemmas
+import TjdLemmas.MinNormTotal
 namespace Tjd.Props.C04
 open Tjd Tjd.Agg
 
@@ -44,5 +48,19 @@ theorem fw_recurrence (h : Nat → α) (C : α) (hC : 0 ≤ C)
     (hstep : ∀ k, ∀ γ : α, 0 ≤ γ → γ ≤ 1 → h (k + 1) ≤ (1 - γ) * h k + γ * γ * C / 2)
     (k : Nat) (hk : 1 ≤ k) : h k ≤ 2 * C / ((k : α) + 2) := by
   exact fw_rec h C hC hstep k hk
+
+/-- COMPLETENESS of the certified min-norm search (the oracle behind MGDA's allowance in C04 and the stationarity margin
+    in C18): for the Gramian of EVERY matrix with at least one row, over every linearly ordered field, `minNorm` RETURNS,
+    and what it returns carries the certificate (hence, by `minnorm_certificate`, is a minimiser of `αᵀGα` on the simplex)
+    together with its value.  So the minimum-norm point of the hull exists over ℚ as over ℝ and the correspondence can
+    never lose a case to "no support found". -/
+theorem minNorm_total [Inhabited α] (J : Mat α) (m n : Nat) (hJ : MatWF J m n) (hm : 0 < m) :
+    ∃ a v, minNorm (gram J) = some (a, v) ∧ minNormCheck (gram J) a = true ∧ v = qf (gram J) a := by
+  exact minNorm_complete_mnt J m n hJ hm
+
+/-- existence alone, in the vocabulary of the property: the simplex has a point of minimum `αᵀGα` -/
+theorem minnorm_point_exists (J : Mat α) (m n : Nat) (hJ : MatWF J m n) (hm : 0 < m) :
+    ∃ a, InSimplex a m ∧ ∀ b, InSimplex b m → qf (gram J) a ≤ qf (gram J) b := by
+  exact minnorm_exists_mnt J m n hJ hm
 
 end Tjd.Props.C04
